@@ -256,7 +256,10 @@ def run_c15(prop, tier, seed):
     if cli is None:
         return 2
     known = main.load_known()
-    tolerate = [k["matcher"]["signature"] for k in known if k.get("property") == "C15" and k.get("status") == "known" and "signature" in k.get("matcher", {})]
+    tolerate = []
+    for k in known:
+        if k.get("property") == "C15" and k.get("status") == "known":
+            tolerate += k.get("matcher", {}).get("signature_in", [])
     cases = 20000 if tier == "quick" else 400000
     hang = 60 if tier == "quick" else 300
     args = ["c15", "--seed", str(seed), "--cases", str(cases), "--hang-secs", str(hang)]
@@ -361,3 +364,300 @@ HANDLERS.update({
     "C15": run_c15,
     "C18": run_c18,
 })
+
+
+# ------------------------------------------------------------------------------------------------
+# C16: deterministic and identical through every route
+# ------------------------------------------------------------------------------------------------
+C16_RULE = ("accepted model grammars (profiles types/memo/mixed/fields/hooks, up to 9 rules, biased to multi-type fields and several cache entries), "
+            "derive sets [Debug,Clone], [+PartialEq,Eq], [Clone], []; per grammar: library route twice in one process and in K fresh processes (fresh hash "
+            "seeds) byte-identical; CLI binary built from the tree (fresh process, -d per derive): code after the header identical to the library's and CRC "
+            "header line identical; build-script route (Compile::file.destination.prefix.derives.run in a fresh process) = header + extra // header lines + "
+            "blank + prefix + newline + the same code bytes; header a pure function of the text; macro route: batch of grammar pairs where one module is "
+            "peginate!(text) and the other the library output, the same model-derived glue (exact type assertions + entry points) must compile against "
+            "both and both must return equal results on generated inputs. Non-trivial = grammar has a multi-type field or >= 2 cache entries (routes) / "
+            "non-trivial input (macro pairs); distinct by grammar text / (pair, rule, input).")
+
+
+def _strip_header(text):
+    lines = text.split("\n")
+    i = 0
+    while i < len(lines) and lines[i].startswith("//"):
+        i += 1
+    hdr = lines[:i]
+    while i < len(lines) and lines[i] == "":
+        i += 1
+    return hdr, "\n".join(lines[i:])
+
+
+def run_c16(prop, tier, seed):
+    main = _main()
+    t0 = time.time()
+    if not ws.build_tools(("front", "genner")):
+        return 2
+    cli = build_cli()
+    if cli is None:
+        return 2
+    front = ws.tool("front")
+    n = 40 if tier == "quick" else 400
+    K = 8 if tier == "quick" else 16
+    d = os.path.join(ws.WORK, "c16tmp")
+    shutil.rmtree(d, ignore_errors=True)
+    os.makedirs(d)
+    subprocess.run([front, "c16-gen", "--seed", str(seed), "--cases", str(n), "--dir", d], check=True)
+    with open(os.path.join(d, "index.json")) as f:
+        index = json.load(f)
+    violations = []
+    evaluations = 0
+    nontrivial = set()
+    classes = {}
+    samples = []
+
+    def viol(g, route, msg, expected="", observed=""):
+        with open(g["file"]) as f:
+            text = f.read()
+        violations.append(dict(property="C16", kind="route", signature="route:" + route, text=text, derives=g["derives"], message=msg,
+                               expected=expected[:600], observed=observed[:600]))
+
+    def cls(c):
+        classes[c] = classes.get(c, 0) + 1
+
+    headers = {}
+    for g in index:
+        dargs = ["--derives", g["derives"]]
+        outs = []
+        for k in range(K):
+            p = subprocess.run([front, "codegen", g["file"]] + dargs, stdout=subprocess.PIPE, stderr=subprocess.PIPE, timeout=120)
+            evaluations += 1
+            if p.returncode == 3:
+                viol(g, "library", "two generate_code calls in one process differ")
+                break
+            if p.returncode != 0:
+                viol(g, "library", "library route failed in a fresh process although it succeeded before", "code", p.stderr.decode()[:300])
+                break
+            outs.append(p.stdout)
+        if len(outs) == K:
+            if any(o != outs[0] for o in outs):
+                i = next(i for i, o in enumerate(outs) if o != outs[0])
+                viol(g, "library", "generated code differs between fresh processes", outs[0].decode()[:300], outs[i].decode()[:300])
+            cls("library_fresh_processes")
+        lib_code = outs[0].decode() if outs else None
+        with open(g["file"]) as f:
+            text = f.read()
+        # CLI route (cannot express the empty derive set)
+        if lib_code is not None and g["derives"] != "-":
+            cargs = []
+            for dv in g["derives"].split(","):
+                cargs += ["-d", dv]
+            p = subprocess.run([cli] + cargs + [g["file"]], stdout=subprocess.PIPE, stderr=subprocess.PIPE, timeout=120)
+            evaluations += 1
+            hdr, code = _strip_header(p.stdout.decode())
+            if p.returncode != 0:
+                viol(g, "cli", "command-line tool failed on an accepted grammar", "status 0", "status %d" % p.returncode)
+            elif code.rstrip("\n") != lib_code.rstrip("\n"):
+                viol(g, "cli", "code printed by the command-line tool differs from the library's", lib_code[:300], code[:300])
+            else:
+                lib_hdr = g["header"].split("\n")
+                if len(hdr) < 2 or hdr[1] != lib_hdr[1]:
+                    viol(g, "cli", "CRC line of the command-line tool's header differs", lib_hdr[1], hdr[1] if len(hdr) > 1 else "")
+            cls("cli_route")
+        # build-script route
+        if lib_code is not None:
+            for prefix in ("", "use std::fmt;\n// second line"):
+                dest = g["file"][:-5] + ".out.rs"
+                if os.path.exists(dest):
+                    os.unlink(dest)
+                p = subprocess.run([front, "buildscript", g["file"], dest, "--prefix", prefix] + dargs, stdout=subprocess.PIPE, stderr=subprocess.PIPE, timeout=120)
+                evaluations += 1
+                if p.returncode != 0 or not os.path.exists(dest):
+                    viol(g, "buildscript", "build-script helper failed on an accepted grammar", "Ok", p.stderr.decode()[:300])
+                    continue
+                with open(dest) as f:
+                    got = f.read()
+                if not got.startswith(g["header"]):
+                    viol(g, "buildscript", "destination does not start with the source header", g["header"], got[:200])
+                    continue
+                rest = got[len(g["header"]):]
+                while rest.startswith("//"):
+                    rest = rest[rest.index("\n") + 1:]
+                want = "\n" + prefix + "\n" + lib_code
+                if rest != want:
+                    viol(g, "buildscript", "destination is not header + prefix + the library's code", want[:300], rest[:300])
+                cls("buildscript_route")
+        # header purity
+        key = text
+        h = headers.setdefault(key, g["header"])
+        if h != g["header"]:
+            viol(g, "header", "equal grammar texts give different headers", h, g["header"])
+        if g["multi_type_field"]:
+            cls("multi_type_field")
+        if g["cache_entries"] >= 2:
+            cls(">=2_cache_entries")
+        if g["multi_type_field"] or g["cache_entries"] >= 2:
+            nontrivial.add(hashlib.sha1((text + g["derives"]).encode()).hexdigest())
+            if len(samples) < 4:
+                samples.append(dict(grammar=text, derives=g["derives"], routes=["library x%d processes" % K, "cli", "buildscript"]))
+    crcs = {}
+    for g in index:
+        with open(g["file"]) as f:
+            text = f.read()
+        crc = g["header"].split("\n")[1]
+        if crc in crcs and crcs[crc] != text:
+            # CRC-32 collisions are out of reach; equal CRC for different text would be a header that ignores the text
+            viol(g, "header", "different grammar texts share a CRC header line", "different", crc)
+        crcs[crc] = text
+    shutil.rmtree(d, ignore_errors=True)
+    # macro route: batch
+    infra = None
+    st = dict(quick=dict(count=48, cases=150), thorough=dict(count=160, cases=1500))[tier]
+    out = batch.generate("macro", seed, st["count"], tier, 0, crates=8)
+    macro_tot = None
+    if out is None:
+        infra = "genner failed (macro plan)"
+    else:
+        rc, errors, other = batch.build(out)
+        with open(os.path.join(out, "models.json")) as f:
+            models = {m["id"]: m for m in json.load(f)}
+        for gid, errs in sorted(errors.items()):
+            m = models.get(gid)
+            role = m["spec"]["role"] if m else "?"
+            if role == "macro":
+                violations.append(dict(property="C16", kind="route", signature="route:macro_types", text=m["text"] if m else "",
+                                       message="the peginate!() expansion does not compile against the type assertions the library output satisfies: %s" % errs[0][:300],
+                                       expected="compiles", observed="; ".join(errs[:3])[:500]))
+        if errors:
+            bad = set(errors)
+            # drop whole pairs
+            for gid in list(bad):
+                base = gid[:-1]
+                bad.add(base + "a")
+                bad.add(base + "b")
+            batch.prune(out, bad)
+            rc, errors2, other = batch.build(out)
+        if rc != 0:
+            infra = "macro batch build failed: %s" % (other[:2],)
+        else:
+            partials, hangs, died = batch.run_wave("C16", out, seed, st["cases"], 64)
+            if hangs or died:
+                infra = "macro batch process hung or died"
+            macro_tot = batch.merge(partials)
+            violations.extend(macro_tot["violations"])
+    coverage = dict(evaluations=evaluations + (macro_tot["evaluations"] if macro_tot else 0),
+                    distinct_nontrivial=len(nontrivial) + (len(macro_tot["nontrivial"]) if macro_tot else 0),
+                    rule=C16_RULE, samples=samples + (macro_tot["samples"][:4] if macro_tot else []), classes=classes,
+                    grammars=len(index), fresh_processes_per_grammar=K,
+                    macro_pairs=(macro_tot["grammars"] // 2 if macro_tot else 0), macro_evaluations=(macro_tot["evaluations"] if macro_tot else 0))
+    return main.finish(prop, tier, seed, t0, coverage, violations, FRONT_ASSUMPTIONS + main.BATCH_ASSUMPTIONS[:1], infra)
+
+
+HANDLERS["C16"] = run_c16
+
+
+# ------------------------------------------------------------------------------------------------
+# C17: the bootstrapped grammar parser is a fixpoint of the generator
+# ------------------------------------------------------------------------------------------------
+C17_RULE = ("per run, from the working tree: stage 2 = the tree's generator on grammar.ebnf; a copy of codegen/ with generated.rs replaced by stage 2 is "
+            "built as a second crate and run on grammar.ebnf -> stage 3; stage 2 must equal stage 3 byte for byte; the CRC header line of the shipped "
+            "generated.rs must match grammar.ebnf. Generated differential: the shipped front end and the stage-2 front end, linked into one binary, read "
+            "every .ebnf file of the repository and generated grammar texts of all classes (valid in canonical and random layouts, restriction violators, "
+            "token-level mutations, hostile identifiers, include cycles, nesting, arbitrary strings): both must return the same Debug rendering of Grammar "
+            "or the same ParseError (position + specifics). Token equality shipped vs stage 2 is recorded as information. Non-trivial = text parses to >= 3 "
+            "rules or fails beyond offset 0; distinct by text.")
+
+
+def run_c17(prop, tier, seed):
+    main = _main()
+    t0 = time.time()
+    if not ws.build_tools(("front",)):
+        return 2
+    front = ws.tool("front")
+    ebnf = os.path.join(ws.REPO, "grammar.ebnf")
+    p = subprocess.run([front, "codegen", ebnf, "--header"], stdout=subprocess.PIPE, stderr=subprocess.PIPE, text=True, timeout=300)
+    if p.returncode != 0:
+        v = [dict(property="C17", kind="bootstrap", signature="stage2_fails", message="the tree's generator cannot compile grammar.ebnf: %s" % p.stderr[-300:])]
+        return main.finish(prop, tier, seed, t0, dict(evaluations=1, distinct_nontrivial=0, rule=C17_RULE, samples=[]), v, FRONT_ASSUMPTIONS, None)
+    hdr, stage2 = _strip_header(p.stdout)
+    violations = []
+    # shipped header CRC
+    shipped_path = os.path.join(ws.REPO, "codegen/src/grammar/generated.rs")
+    with open(shipped_path) as f:
+        shipped = f.read()
+    shipped_hdr, shipped_code = _strip_header(shipped)
+    crc_ok = len(shipped_hdr) >= 2 and len(hdr) >= 2 and shipped_hdr[1] == hdr[1]
+    if not crc_ok:
+        violations.append(dict(property="C17", kind="bootstrap", signature="shipped_crc", message="the CRC line of the shipped generated.rs does not match grammar.ebnf",
+                               expected=hdr[1] if len(hdr) > 1 else "", observed=shipped_hdr[1] if len(shipped_hdr) > 1 else ""))
+    # informational: shipped file == rustfmt(stage 2) (bootstrap.sh pipes the CLI output through rustfmt)
+    tokens_equal = None
+    try:
+        fp = subprocess.run(["rustfmt", "--edition", "2021"], input=stage2, stdout=subprocess.PIPE, stderr=subprocess.PIPE, text=True, timeout=120)
+        if fp.returncode == 0:
+            tokens_equal = fp.stdout.strip() == shipped_code.strip()
+    except Exception:
+        pass
+    # build the stage-2 generator and the driver
+    c17 = os.path.join(ws.WS, "c17")
+    s2 = os.path.join(c17, "s2")
+    drv = os.path.join(c17, "drv")
+    shutil.rmtree(s2, ignore_errors=True)
+    shutil.copytree(os.path.join(ws.REPO, "codegen"), s2, ignore=shutil.ignore_patterns("target"))
+    with open(os.path.join(s2, "Cargo.toml")) as f:
+        ct = f.read()
+    ct = ct.replace('name = "peginator_codegen"', 'name = "peginator_codegen_s2"').replace('path = "../runtime"', 'path = "%s/runtime"' % ws.REPO)
+    with open(os.path.join(s2, "Cargo.toml"), "w") as f:
+        f.write(ct)
+    with open(os.path.join(s2, "src/grammar/generated.rs"), "w") as f:
+        f.write(stage2)
+    os.makedirs(os.path.join(drv, "src"), exist_ok=True)
+    ws.write_if_changed(os.path.join(drv, "Cargo.toml"), """[package]
+name = "c17drv"
+version = "0.1.0"
+edition = "2021"
+
+[dependencies]
+verif_core = { path = "../../core" }
+peginator_codegen = { path = "%s/codegen" }
+peginator_codegen_s2 = { path = "../s2" }
+peginator = { path = "%s/runtime" }
+serde_json = "1"
+""" % (ws.REPO, ws.REPO))
+    with open(os.path.join(ws.HARNESS, "c17drv/main.rs")) as f:
+        ws.write_if_changed(os.path.join(drv, "src/main.rs"), f.read())
+    ws.materialise()
+    bp = ws.cargo(["build", "--offline", "-p", "c17drv"], capture=True, timeout=1800)
+    evaluations = 2
+    infra = None
+    cov_extra = dict(stage2_bytes=len(stage2), shipped_tokens_equal_stage2=tokens_equal, shipped_crc_matches=crc_ok)
+    dj = None
+    if bp.returncode != 0:
+        # the regenerated front end does not even compile inside the generator: the bootstrap is broken
+        errs = [l for l in bp.stderr.splitlines() if l.startswith("error")][:5]
+        violations.append(dict(property="C17", kind="bootstrap", signature="stage2_does_not_build",
+                               message="a generator built around the regenerated grammar parser does not compile: %s" % "; ".join(errs)[:400]))
+    else:
+        drvbin = ws.tool("c17drv")
+        p3 = subprocess.run([drvbin, "stage3", ebnf], stdout=subprocess.PIPE, stderr=subprocess.PIPE, text=True, timeout=300)
+        if p3.returncode != 0:
+            violations.append(dict(property="C17", kind="bootstrap", signature="stage3_fails", message="the stage-2 generator fails on grammar.ebnf: %s" % p3.stderr[-300:]))
+        elif p3.stdout != stage2:
+            i = next((i for i, (a, b) in enumerate(zip(p3.stdout, stage2)) if a != b), min(len(p3.stdout), len(stage2)))
+            violations.append(dict(property="C17", kind="bootstrap", signature="stage2_ne_stage3", message="regenerating twice does not reach a fixpoint: stage 2 != stage 3 (first difference at byte %d)" % i,
+                                   expected=stage2[max(0, i - 100):i + 200], observed=p3.stdout[max(0, i - 100):i + 200]))
+        cases = 20000 if tier == "quick" else 600000
+        out = os.path.join(ws.WORK, "c17diff.json")
+        pd = subprocess.run([drvbin, "diff", "--seed", str(seed), "--cases", str(cases), "--out", out, "--ebnf-dir", ws.REPO], stdout=subprocess.DEVNULL, stderr=subprocess.PIPE, text=True, timeout=4 * 3600)
+        if pd.returncode != 0 or not os.path.exists(out):
+            infra = "c17drv diff failed: rc=%s %s" % (pd.returncode, pd.stderr[-300:])
+        else:
+            with open(out) as f:
+                dj = json.load(f)
+            violations.extend(dj["violations"])
+    shutil.rmtree(c17, ignore_errors=True)
+    ws.materialise()
+    coverage = dict(evaluations=evaluations + (dj["evaluations"] if dj else 0), distinct_nontrivial=(dj["distinct_nontrivial"] if dj else 0), rule=C17_RULE,
+                    samples=(dj["samples"] if dj else []) + [dict(stage2_equals_stage3=not any(v.get("signature") == "stage2_ne_stage3" for v in violations))],
+                    classes=(dj["classes"] if dj else {}), **cov_extra)
+    return main.finish(prop, tier, seed, t0, coverage, violations, FRONT_ASSUMPTIONS, infra)
+
+
+HANDLERS["C17"] = run_c17
